@@ -530,8 +530,14 @@ def _run(case, ctx, rng, kind, scheme, dim, et, key0, root):
     def op_save_load():
         S = os.path.join(root, f"S{len(history)}")
         reuse = rng.random() < 0.5
+        own = rng.random() < 0.3
         with ctx.monitored("no-exception", key0 + "/Save+Load_Simu/raised"):
-            if reuse:
+            if own:
+                # the folder in which this very simulation may already have stored some of its iterations (others being in memory or
+                # in the other scratch folder)
+                S = folders[int(rng.integers(2))]
+                ctx.event("Save-into-own-iteration-folder")
+            elif reuse:
                 # a folder that already holds another simulation (an earlier run of another model saved there): Save replaces it
                 S = os.path.join(root, "reused")
                 if not os.path.exists(S):
